@@ -657,9 +657,11 @@ fn odb_objects(rng: &mut Rng, recv: &Path) -> Vec<(gix_hash::ObjectId, Vec<u8>)>
             }
         }
     }
-    for _ in 0..4 {
+    // distinct contents (k * 7 + 0..6 in the first byte): the op line names the objects of the database by
+    // position, two positions with the same object id would be one object for the real code
+    for k in 0..4u64 {
         let n = *rng.pick(&[1usize, 8, 30, 120, 200, 1000]);
-        objs.push((0..n).map(|i| b'A' + ((i as u64 * 31 + rng.below(7)) % 26) as u8).collect());
+        objs.push((0..n).map(|i| b'A' + ((i as u64 * 31 + rng.below(7) + k * 7) % 26) as u8).collect());
     }
     objs.into_iter()
         .map(|c| {
